@@ -1,6 +1,7 @@
 """C18 — buffered writes are flushed once they are about ten seconds old."""
 from ..rules_commit import check_age_test, check_commit_discipline, check_fresh_age
 from ..core import Report
+from ..model import norm as norm_
 
 
 def check(prog, rep):
@@ -14,6 +15,18 @@ def check(prog, rep):
     rep.not_decided = ["wall-clock monotonicity", "durability of the commit itself"]
     check_age_test(prog, rep)
     check_fresh_age(prog, rep)
+    # nothing on the way from the age test to the flush raises by construction (a log line in the old branch that cannot be built
+    # makes every write that should flush raise instead, and the transaction stays open)
+    from ..rules_raise import certain_raises
+
+    rep.rule("AGE-RAISE", "no expression in conditional_commit / commit raises whenever it is evaluated (integer format code on a float, text + number): such an expression in the age branch replaces the flush by an exception")
+    for nm in ("SqliteStorage.conditional_commit", "SqliteStorage.commit"):
+        f_ = prog.func(nm)
+        cr = certain_raises(f_)
+        for n_, why in cr:
+            rep.violation("AGE-RAISE", f_.short, norm_(n_)[:50], f"{why}; the write that reaches this line raises instead of flushing, so the buffered rows stay uncommitted until the count threshold or a read", f_.loc(n_))
+        if not cr:
+            rep.ok("AGE-RAISE", f_.short, "expressions", "none raises by construction", f_.loc())
     # every event write reaches conditional_commit: reuse C06's rule B silently and import only its B obligations
     sub = Report("C18", rep.tier, rep.repo, quiet=True)
     check_commit_discipline(prog, sub)
@@ -38,6 +51,8 @@ VARIANTS = [
     ("B threshold in minutes", SQ, "> timedelta(seconds=10):", "> timedelta(minutes=10):", "AGE"),
     ("B age test removed", SQ, "            if (datetime.now() - self.last_commit) > timedelta(seconds=10):\n                self.commit()\n", "", "AGE"),
     ("B old branch only logs", SQ, "            if (datetime.now() - self.last_commit) > timedelta(seconds=10):\n                self.commit()\n", "            if (datetime.now() - self.last_commit) > timedelta(seconds=10):\n                logger.debug('stale transaction')\n", "AGE"),
+    ("B log line in the old branch formats seconds with :d", SQ, "            if (datetime.now() - self.last_commit) > timedelta(seconds=10):\n                self.commit()\n", "            if (datetime.now() - self.last_commit) > timedelta(seconds=10):\n                logger.debug(f\"flushing after {(datetime.now() - self.last_commit).total_seconds():d}s\")\n                self.commit()\n", "AGE-RAISE"),
+    ("OK log line in the old branch formats seconds with :.0f", SQ, "            if (datetime.now() - self.last_commit) > timedelta(seconds=10):\n                self.commit()\n", "            if (datetime.now() - self.last_commit) > timedelta(seconds=10):\n                logger.debug(f\"flushing after {(datetime.now() - self.last_commit).total_seconds():.0f}s\")\n                self.commit()\n", "ok"),
     ("B last_commit not stamped by commit()", SQ, "        self.conn.commit()\n        self.last_commit = datetime.now()\n", "        self.conn.commit()\n", "AGE-STAMP"),
     ("B comparison inverted", SQ, "if (datetime.now() - self.last_commit) > timedelta(seconds=10):", "if (datetime.now() - self.last_commit) < timedelta(seconds=10):", "AGE"),
     ("B replace_last bypasses conditional_commit", SQ, "        self.conn.execute(query, [starttime, endtime, datastr, bucket_id])\n        self.conditional_commit(1)\n", "        self.conn.execute(query, [starttime, endtime, datastr, bucket_id])\n", "COMMIT-B"),
